@@ -1,5 +1,5 @@
 """Property -> rules table."""
-import lattice_rules, agg_rules, lib_rules
+import lattice_rules, agg_rules, lib_rules, byods_rules
 
 
 def run_C16(ctx, rep):
@@ -7,7 +7,7 @@ def run_C16(ctx, rep):
 
 
 def run_C17(ctx, rep):
-    agg_rules.check_L9(ctx, rep, ['aggregators'])
+    agg_rules.check_L9(ctx, rep, ['aggregators'], partial=True)
     agg_rules.check_L11(ctx, rep)
     rep.floor('L9', 1, 'panicking index operations in ascent::aggregators')
     rep.floor('L11.empty', 7, 'aggregators')
@@ -28,7 +28,56 @@ def run_C20(ctx, rep):
     rep.floor('L9', 2, 'shard indexing in CRelNoIndex')
 
 
+def run_C10(ctx, rep):
+    byods_rules.check_L5(ctx, rep, 'eqrel_ternary')
+    byods_rules.check_L15(ctx, rep)
+    byods_rules.check_L16(ctx, rep, ['union_find'])
+    lib_rules.classify_writers(ctx, rep)
+
+
+def run_C11(ctx, rep):
+    byods_rules.check_L5(ctx, rep, 'trrel_ternary_ind')
+    byods_rules.check_L12(ctx, rep)
+    byods_rules.check_L14(ctx, rep)
+
+
+def run_C12(ctx, rep):
+    byods_rules.check_L5(ctx, rep, 'adaptor::bin_rel_to_ternary')
+    byods_rules.check_L14(ctx, rep)
+    byods_rules.check_L16(ctx, rep, ['trrel_union_find'])
+    byods_rules.check_L17(ctx, rep)
+
+
 PROPS = {
+    'C10': {
+        'run': run_C10, 'corpus': False, 'level': 'other',
+        'explanation': 'structural obligations of the eqrel provider: L5 the delta / total produced by every per-key merge of the ternary '
+                       'wrapper is a place of the caller\'s delta / total or is stored back (sibling cross-check with the trrel and '
+                       'trrel_uf wrappers); L15 the binary merge (serial and parallel siblings) computes total.combined=D, delta.old=D, '
+                       'delta.combined=D+N, new=empty by abstract interpretation over symbolic contents; L16 the read-only find follows the '
+                       'subsumption chain to its root. NOT decided: that EqRel is an equivalence closure, that the index views enumerate '
+                       'exactly combined minus old.',
+        'assumptions': ['EqRel (union-find with set subsumptions) add/combine are correct on values', 'index views are not analysed'],
+        'rule_text': 'one instance = one per-key merge call site / one merge sequence / one find hit-arm / one writer',
+    },
+    'C11': {
+        'run': run_C11, 'corpus': False, 'level': 'other',
+        'explanation': 'structural obligations of the trrel provider: L5 (per-key merge outputs persist in the ternary wrapper), L12 the '
+                       'reflexivity filter of the closure loop is not hard-wired on (constant propagation over all constructions of the '
+                       'flag), L14 every join step of the inner semi-naive loop runs in every round (no short-circuit / dependent branch). '
+                       'NOT decided: correctness of the three joins and of the reverse maps on values.',
+        'assumptions': ['the three joins of the inner loop compute what their names say', 'reverse maps are consistent with forward maps'],
+        'rule_text': 'one instance = one per-key merge call site / one construction of the flag / one loop step',
+    },
+    'C12': {
+        'run': run_C12, 'corpus': False, 'level': 'other',
+        'explanation': 'structural obligations of the trrel_uf provider: L5 on the binary-to-ternary adaptor, L14 on the inner loop of the '
+                       'union-find backed merge, L16 find follows the subsumption chain, L17 sibling agreement of set_of / rev_set_of on '
+                       'canonicalising class ids. NOT decided: TrRelUnionFind itself, the New/Delta/Total bookkeeping and panic freedom '
+                       '(DESIGN.md 5-O1).',
+        'assumptions': ['TrRelUnionFind::add / add_set_connection are correct on values', 'panic freedom of the adaptor is not decided'],
+        'rule_text': 'one instance = one per-key merge call site / one loop step / one find hit-arm / one sibling pair',
+    },
     'C19': {
         'run': run_C19, 'corpus': False, 'level': 'other',
         'explanation': 'protocol obligations of the index building blocks of `ascent`, decided on the typed HIR: L1 insert-if-absent '
